@@ -306,6 +306,18 @@ pub fn run(ctx: &mut Ctx) {
             ctx.check("in:substring", &json!({"in": [t, s]}), &null);
         }
     }
+    // straddle strings: needles that start, end and sit at the straddling character
+    for (st, ci) in al::straddle_strings() {
+        if !ctx.mine() {
+            continue;
+        }
+        let chars: Vec<char> = st.chars().collect();
+        let sub = |a: usize, b: usize| -> String { chars[a.min(chars.len())..b.min(chars.len())].iter().collect() };
+        for needle in [sub(ci, ci + 1), sub(ci.saturating_sub(1), ci + 1), sub(ci, ci + 2), sub(ci.saturating_sub(2), ci + 3), format!("{}Z", sub(ci, ci + 1)), sub(ci + 1, ci + 3)] {
+            ctx.edge();
+            ctx.check("in:straddle", &json!({"in": [needle, {"var": "s"}]}), &json!({"s": st}));
+        }
+    }
     crate::spaces::render_probes(ctx, &["merge", "in"]);
     crate::spaces::width_probes(ctx);
     crate::spaces::type_grid_probes(ctx, &["merge", "in"]);
